@@ -244,17 +244,22 @@ def protocol(kind, t1, t2, size, thr, chunk, io, window, f1, s1, s2):
     return None
 
 
-_P = 'size: int, thr: int, chunk: int, io: int, window: int, f1: int, s1: int, s2: int'
-_PRE = ['1 <= thr <= size', '1 <= chunk', '2 * chunk < size <= 3 * chunk', 'chunk <= io', '1 <= window <= 3',
-        '-1 <= f1 <= chunk', '-1 <= s1 <= 60', '-1 <= s2 <= 60']
+def protocol_fixed(kind, t1, t2, window, f1, s1, s2):
+    """the schedule is what is explored here: the object is 15 bytes in 3 parts of 5 (sizes are symbolic in C02/C14)"""
+    return protocol(kind, t1, t2, 15, 5, 5, 5, window, f1, s1, s2)
+
+
+_P = 'window: int, f1: int, s1: int, s2: int'
+_PRE = ['1 <= window <= 3', '-1 <= f1 <= 5', '-1 <= s1 <= 60', '-1 <= s2 <= 60']
 OB_DL = dict(
-    id='CO.download', impl='protocol', params=_P, pre=_PRE,
+    id='CO.download', impl='protocol_fixed', params=_P, pre=_PRE,
     cases=[('stream', 3, -1), ('stream', 4, -1), ('stream', 3, 4)],
     cases_thorough=[(k, t, u) for k in ('stream', 'seekable') for t in (1, 2, 3, 4) for u in (-1, 2, 3, 4)],
-    splits=[['f1 == -1', 's1 <= 20'], ['f1 == -1', '20 < s1 <= 40'], ['f1 == -1', '40 < s1']],
-    splits_thorough=[[a, b] for a in ('f1 == -1', 'f1 >= 0') for b in ('s1 <= 20', '20 < s1 <= 40', '40 < s1')],
+    splits=[['f1 == -1', '%d <= s1 <= %d' % (a, a + 9)] for a in range(-1, 59, 10)],
+    splits_thorough=[[a, '%d <= s1 <= %d' % (b, b + 9)] for a in ('f1 == -1', 'f1 >= 0') for b in range(-1, 59, 10)],
     timeout=(170, 1500),
-    bounds='one ranged download of 3 parts x 1 chunk to a non-seekable stream (thorough: also seekable); window 1..3 '
+    bounds='one ranged download of a 15-byte object in 3 parts x 1 chunk (concrete sizes: the schedule is the subject) '
+           'to a non-seekable stream (thorough: also seekable); window 1..3 '
            'symbolic; every GetObjectTask on its own model thread, one IO thread; default order = submission order '
            'plus one (third case and thorough: two) preemptions of chosen tasks when they have existed for a symbolic '
            'number of steps; thorough: a retryable stream fault at a symbolic byte position',
